@@ -280,6 +280,17 @@ def apply_step(kind, arr, st, notes=None):
             return _frame(arr).geometry.values
         if form == 'df_pickle':
             return pickle.loads(pickle.dumps(_frame(arr)))['g'].values
+        if form == 'parquet':
+            import os
+            import shutil
+            import tempfile
+            from spatialpandas.io import read_parquet, to_parquet
+            d = tempfile.mkdtemp(prefix='c16_pq_')
+            try:
+                to_parquet(_frame(arr), os.path.join(d, 'f.parq'))
+                return read_parquet(os.path.join(d, 'f.parq'))['g'].values
+            finally:
+                shutil.rmtree(d, ignore_errors=True)
         if form == 'iter':
             return cls._from_sequence(list(arr), dtype=arr.dtype)
         if form == 'full_slice':
@@ -486,7 +497,7 @@ def rand_step(rng, n, invalid_p=0.12, pandas_forms=True):
         return {'op': 'concat', 'args': pieces, 'form': rng.choice(forms)}
     forms = ['copy', 'pickle', 'full_slice', 'iter']
     if pandas_forms:
-        forms += ['series', 'series_copy', 'df', 'df_pickle']
+        forms += ['series', 'series_copy', 'df', 'df_pickle', 'parquet']
     return {'op': 'copy', 'args': None, 'form': rng.choice(forms)}
 
 
